@@ -93,6 +93,17 @@ def build_oracle(extra=None, name="oracle", race=False):
     return out
 
 
+def build_regal():
+    """the real `regal` binary, built from the current working tree"""
+    t0 = time.time()
+    out = os.path.join(BUILD, "regal-" + hashlib.sha1(REPO.encode()).hexdigest()[:8])
+    p = sh(["go", "build", "-o", out, "."], cwd=REPO, env=GOENV, check=False, timeout=1500)
+    if p.returncode != 0:
+        raise BuildBroken("go build of regal failed:\n" + p.stdout[-3000:])
+    log("[build] regal %.1fs" % (time.time() - t0))
+    return out
+
+
 class BuildBroken(Exception):
     pass
 
